@@ -23,9 +23,10 @@ RULES = {
     "R4": "stream derivation: default_rng(SeedSequence(seed).spawn(n_chains)[chain_index]); slice = {seed, n_chains, chain_index}",
     "R5": "VI arm: model.sample(num_samples=results.n_thetas) once, outside loops; every returned sample is added",
     "R7": "one model.step() is exactly one unconditional sweep (mcmc_step) of the wrapped sampler, in every MCMC model class",
+    "R8": "set_rng stores the generator it is given, unconditionally, in the attribute the model's `rng` property reads, in every model class",
     "R6": "0 is a legal burn-in length and a legal chain index: no refusal of sample() fires because n_burnin / chain_index is 0",
 }
-MIN = {"R1": 2, "R2": 2, "R3": 2, "R4": 2, "R5": 1, "R6": 2, "R7": 1}
+MIN = {"R1": 2, "R2": 2, "R3": 2, "R4": 2, "R5": 1, "R6": 2, "R7": 1, "R8": 2}
 TRUSTED = ["numpy SeedSequence.spawn yields independent child sequences; a fresh SeedSequence(seed) is a function of seed only",
            "tqdm.trange(n) iterates 0..n-1"]
 TECHNIQUE = "dominance and loop-shape rules on the CFG, congruence check of the thinning predicate over the polynomial normal form, backward slice of the generator"
@@ -208,8 +209,17 @@ def r_all(ctx):
     for t, neg in conds:
         while isinstance(t, ast.UnaryOp) and isinstance(t.op, ast.Not):
             t, neg = t.operand, not neg
-        norm_conds.append((t, neg))
-    conds = norm_conds
+        if isinstance(t, ast.BoolOp) and isinstance(t.op, ast.And) and not neg:
+            norm_conds += [(v_, False) for v_ in t.values]        # the recording runs when every conjunct holds
+        elif isinstance(t, ast.BoolOp) and isinstance(t.op, ast.Or) and neg:
+            norm_conds += [(v_, True) for v_ in t.values]         # .. when no disjunct of a skipping test holds
+        else:
+            norm_conds.append((t, neg))
+    conds = []
+    for t, neg in norm_conds:
+        while isinstance(t, ast.UnaryOp) and isinstance(t.op, ast.Not):
+            t, neg = t.operand, not neg
+        conds.append((t, neg))
     for t, negated in conds:
         form = modular_form(t, iv, N, negated)
         if form is None:
@@ -457,7 +467,52 @@ def r7(ctx):
     ctx.need(n >= 1, "no MCMC model with a step() method found")
 
 
-RULE_FUNCS = [r_all, r5, r6, r7]
+def r8(ctx):
+    """`the generator handed to the model depends only on (seed, chains, index)` ends at the model's setter: sample() calls
+    model.set_rng(rng) after reset_model(), and a setter that keeps an earlier generator (`if self._rng is None: ...`) makes the draws
+    depend on the construction-time generator / the previous run instead.  Every concrete set_rng is exactly one unconditional store
+    of its parameter into an attribute of self, and the class's `rng` property (where defined) returns that attribute."""
+    R = ctx.R
+    n = 0
+    for cq in sorted(R.classes):
+        q = f"{cq}.set_rng"
+        if q not in R.funcs:
+            continue
+        f = ctx.fn(q)
+        body = [st for st in f.node.body if not (isinstance(st, ast.Expr) and isinstance(st.value, ast.Constant))]
+        if len(body) == 1 and isinstance(body[0], ast.Raise):
+            continue
+        n += 1
+        ctx.need(len(f.params) >= 2, f"{f.site()}: set_rng takes no generator")
+        P = f.params[1]
+        stores = [st for st in walk_own(f.node) if isinstance(st, (ast.Assign, ast.AnnAssign)) and
+                  any(isinstance(t, ast.Attribute) and U(t.value) == "self" for t in (st.targets if isinstance(st, ast.Assign) else [st.target]))]
+        direct = [st for st in stores if st.value is not None and U(st.value) == P]
+        if not direct:
+            dele = [c for c in calls(f.node) if any(U(a) == P for a in c.args)]
+            if dele:
+                raise AnalysisError(f"{f.site()}: the generator is passed on ({U(dele[0])[:60]}) rather than stored; not followed by this rule")
+            ctx.bad("R8", f"{f.site()}::stores-the-given-generator", f"set_rng never stores its parameter `{P}`: the model keeps drawing from whatever generator it had")
+            continue
+        top = [st for st in direct if st in body]
+        branchy = any(isinstance(x, (ast.If, ast.Try, ast.Return, ast.For, ast.While, ast.IfExp)) for x in walk_own(f.node))
+        attr = U(direct[0].targets[0] if isinstance(direct[0], ast.Assign) else direct[0].target)
+        ok = len(direct) == 1 and len(top) == 1 and not branchy
+        if not ok and len(top) == 1 and body.index(top[0]) == len(body) - 1 and not any(isinstance(x, ast.Return) for x in walk_own(f.node)):
+            ok = True       # whatever precedes, the last top-level statement stores the parameter on every path
+        ctx.check("R8", f"{f.site()}::stores-the-given-generator", ok, f"`{attr} = {P}` is the unconditional effect of set_rng",
+                  f"`{attr} = {P}` is conditional in set_rng: when the condition fails the model keeps its earlier generator and the draws no longer depend on "
+                  f"(seed, n_chains, chain_index) alone")
+        pq = f"{cq}.rng"
+        if pq in R.funcs:
+            g = ctx.fn(pq)
+            rets = returns(g.node)
+            ctx.check("R8", f"{g.site()}::reads-what-set_rng-stored", len(rets) == 1 and U(rets[0].value) == attr,
+                      f"the `rng` property returns {attr}", f"the `rng` property returns {[U(r.value) for r in rets]}, not {attr} stored by set_rng")
+    ctx.need(n >= 2, "fewer than two concrete set_rng methods found")
+
+
+RULE_FUNCS = [r_all, r5, r6, r7, r8]
 
 
 def run(ctx):
